@@ -1,5 +1,5 @@
 (* Property C13 - view = marginalize > project > mask > normalize, equal to chained single steps. *)
-From Sfs Require Import Index ArrayM Scalar Spectrum Project Stat IndexP ArrayP MargP FoldP StatDefP StatInvP ViewP.
+From Sfs Require Import Index ArrayM Scalar Spectrum Project Create Stat IndexP ArrayP MargP FoldP StatDefP StatInvP ViewP CreateP CreateSpecP CreateRelP.
 
 Close Scope Qc_scope. Close Scope Q_scope. Open Scope nat_scope.
 
